@@ -1,5 +1,6 @@
 mod c20;
 mod concat;
+mod empty;
 mod like;
 mod needle;
 mod oracle;
